@@ -90,6 +90,19 @@ CHECKS.update({
         engine="E4-scenarios + E3-trace", ref="DESIGN.md 6 C07"),
 })
 
+CHECKS.update({
+    "C16": dict(
+        text="spec/Env.tla transcribes the layering of env.Environment (customer map, unreserved platform defaults, credentials in both modes, reserved runtime variables incl. handler override, reserved platform variables incl. the Runtime API address; extension filter) over one variable per key class; TLC checks ReservedWin, UnshadowedArrive and AgentFiltered on all 1920 configurations, and every configuration is a test case executed through the real API (process environment, NewEnvironment, SetHandler, StoreRuntimeAPIEnvironmentVariable, StoreEnvironmentVariablesFromInit[ForInitCaching]) with the complete runtime and extension maps compared; a sample runs through the full stack (environments of the supervisor's Exec requests, registration over the advertised address, one case with an OS-chosen port).",
+        note="Trusted: TLC, the TLA+ value parser, the replayer's string comparison. One representative variable name per key class; the front end's os.Environ forwarding is not part of this check.",
+        technique="TLA+ transcription of the environment layering; TLC enumerates all configurations; each state replayed on the real API (spec -> code)",
+        engine="E1-tlc + E2-cases", ref="DESIGN.md 6 C16"),
+    "C20": dict(
+        text="spec/Sanitize.tla transcribes the error-type grammar over symbol classes (all sequences up to length 5/6), the decision structure of the X-Ray error cause (document class x recognised fields x size class x escape class) and the budget arithmetic of the runtime identity string; TLC enumerates every abstract case with its expected classification (ReleaseBounded, ETypeTotal checked on the transcription). Each case is concretised into seeded random strings / documents (100 B to 1.5 MiB, quote-, control- and multi-byte-heavy) / header pairs and pushed through the real functions; the projection computes validity, length and prefix relations, the specification decides what is legal.",
+        note="Trusted: TLC, the replayer's projection (JSON validity, byte length, prefix relation). Exhaustive over symbol / document classes, sampled within a class.",
+        technique="TLA+ transcription of case-rich functions; TLC enumerates abstract cases; one implementation test per state (spec -> code)",
+        engine="E1-tlc + E2-cases", ref="DESIGN.md 6 C20"),
+})
+
 NA = {
 }
 
